@@ -12,4 +12,16 @@ size_t strspn(const char *s, const char *accept)
   }
   return n;
 }
+/* strcspn model (trusted, ISO C 7.24.5.3): length of the initial segment of s made of characters NOT in reject */
+size_t strcspn(const char *s, const char *reject)
+{
+  size_t n = 0;
+  while (s[n]) {
+    const char *a = reject; int hit = 0;
+    while (*a) { if (*a == s[n]) { hit = 1; break; } a++; }
+    if (hit) break;
+    n++;
+  }
+  return n;
+}
 #endif
